@@ -14,6 +14,7 @@
 //!                                            abandon: relinquish (token stays)
 //! lifecycle ls <cfg>                       files below the root of <cfg>, one per line with mode
 //! lifecycle svc-create|svc-open|svc-recreate|svc-exists <cfg> <name> …   service-level victims / survivors (C04 service part): see svc.rs
+//! lifecycle port-holder|port-create <cfg> <name> …   port-level holder / victim (C04 port part): see port.rs
 //!
 //! <cfg> is an iceoryx2 toml config; it is installed as the GLOBAL config of the process (so that the
 //! clean-up's fall-back to the global config when the node details are unreadable stays in the domain).
@@ -30,6 +31,7 @@ use iceoryx2_cal::monitoring::{Monitoring, MonitoringBuilder, MonitoringCleaner,
 use iceoryx2_cal::named_concept::{NamedConceptBuilder, NamedConceptConfiguration};
 use std::io::{BufRead, Write};
 
+mod port;
 mod svc;
 
 pub(crate) fn out(s: &str) {
@@ -228,7 +230,7 @@ fn main() {
         }
         c => {
             // service-level commands of the C04 service part (svc.rs)
-            if !svc::run(c, &args, config) {
+            if !svc::run(c, &args, config) && !port::run(c, &args, config) {
                 eprintln!("unknown command {c}");
                 std::process::exit(2);
             }
